@@ -665,14 +665,31 @@ unsigned cmb_random_loaded_dice(const unsigned n, const double *pa)
     cmb_assert_release(pa != NULL);
     cmb_assert_release(sums_to_one(n, pa));
 
-    const double x = cmb_random();
+    /* The probabilities only sum to 1.0 within a tolerance: scale the sample
+     * by their actual sum, as cmb_random_alias_create does, so that it can not
+     * fall through to index n when the sum is a little less than 1.0. */
+    double sum = 0.0;
+    for (unsigned uj = 0u; uj < n; uj++) {
+        sum += pa[uj];
+    }
+
+    const double x = sum * cmb_random();
     double q = 0.0;
     unsigned ui;
+    unsigned last = 0u;
     for (ui = 0; ui < n; ui++) {
+        if (pa[ui] > 0.0) {
+            last = ui;
+        }
         q += pa[ui];
         if (x < q) {
             break;
         }
+    }
+
+    if (ui == n) {
+        /* Rounding only: the last alternative that has any probability */
+        ui = last;
     }
 
     cmb_assert_debug(ui < n);
